@@ -44,6 +44,8 @@ def check(chk, repo):
         check_seeding(rep, "" if cls == "SupervisedOPF" else "semi:", ift, repo)
         check_prototypes_survive(rep, "" if cls == "SupervisedOPF" else "semi:", ift)
     chk.floor("competition loops reachable from the two fit methods", total, 4)
+    from ..common import check_model_premises
+    check_model_premises(rep, repo)
     from ..rules_heap import check_heap
     check_heap(rep, repo, "HEAP-")
     chk.undecided += [
